@@ -550,9 +550,9 @@ let rec handle (line : string) : string =
     (* one pixel switched on in a page over several GiB of zero bytes: single bytes through the byte view of set_pixel
        (C06_byte_view, C06_zero_page_view); the pixel reads 1 (C06_set_ok), its in-bounds neighbours 0 (C06_get_set_other) *)
     let w = num w and h = num h and x = num x and y = num y in
-    (match index { p_w = w; p_h = h; p_bytes = [] } x y with
-     | None -> "PANIC"
-     | Some _ ->
+    (match set_pixel_byte_view w h x y true N0 (zero_bytes_view w h N0), index { p_w = w; p_h = h; p_bytes = [] } x y with
+     | None, _ | _, None -> "PANIC"
+     | Some _, Some _ ->
        let right = if N.ltb (N.add x (n_of_int 1)) w then "0" else "-" in
        let above = if N.ltb N0 y then "0" else "-" in
        let one i =
